@@ -21,4 +21,13 @@ sys.path.insert(0, HERE)
 from simz.runner import main   # noqa
 
 if __name__ == '__main__':
-    sys.exit(main(sys.argv[1:]))
+    try:
+        rc = main(sys.argv[1:])
+    except SystemExit:
+        raise
+    except BaseException:          # noqa - an accident of the machinery is never reported as a violation (exit 1)
+        import traceback
+        traceback.print_exc()
+        print('HARNESS-ERROR: the check itself failed (see the traceback above)')
+        rc = 2
+    sys.exit(rc)
